@@ -165,7 +165,7 @@ def plan(tier, seed):
     jobs = []
     for k in range(16):
         jobs.append({"sub": "grid", "seed": seed, "shard": k, "nshards": 16, "cost": 5})
-    n = scaled(3200 if tier == "quick" else 60000)
+    n = scaled(16000 if tier == "quick" else 240000)
     shards = 16 if tier == "quick" else 64
     for k in range(shards):
         jobs.append({"sub": "hyp", "seed": seed, "shard": k, "n": max(1, n // shards), "cost": 8})
